@@ -259,7 +259,7 @@ fn ar_succ(s: &Desc, _depth: usize, tier: Tier) -> Vec<Desc> {
             e
         };
         for e in elems {
-            for sh in [Shape::Unsized, Shape::Static(0), Shape::Static(1), Shape::Static(3), Shape::Static(32)] {
+            for sh in [Shape::Unsized, Shape::Modifier(2), Shape::Static(0), Shape::Static(1), Shape::Static(3), Shape::Static(32)] {
                 out.push(push_field(s, "P", Field::new(FieldKind::Array { id: "x".into(), elem: e.clone(), shape: sh })));
             }
         }
